@@ -1,7 +1,7 @@
 """C16 — Douglas-Peucker / Visvalingam simplification (tracklib/algo/simplification.py, util/geometry.py)."""
 import itertools, math
 from fractions import Fraction
-from engine import Prop, fbits, bitsf, close
+from engine import Prop, fbits, bitsf, close, ratstr, parse_rat
 
 SLACK = 1e-9          # the oracle accepts distance <= eps * (1 + SLACK): float rounding of the code's own distances
 TOLS = [1e-3, 1e-2, 0.1, 0.25, 0.5, 0.7, 0.75, 1, 1.0, 1.25, 1.5, 2, 2.5, 3, 5, 10.0, 100, 1e3]
@@ -57,9 +57,12 @@ class P(Prop):
         (M, "TV.C16.dp_total_of_self_distance", "T3 (scalar-independent): with eps > 0 the recursion terminates on every track provided distance_to_segment(A; A, B) is never > 0 (the odd split L[0:imax]/L[imax:n] always yields two strictly shorter parts)"),
         (M, "TV.C16.dp_total", "T3: over an ordered field with a correct sqrt, douglas_peucker is defined for every track (closed loops included) and every eps > 0"),
         (M, "TV.C16.dist_seg_spec", "T4: distance_to_segment (projection + clamp to the segment's box, l == 0 branch) is >= 0 and its square is the minimum over t in [0,1] of |P - (A + t(B-A))|^2"),
+        (M, "TV.C16.dist_sq_eq", "T4 (executable form): distance_to_segment^2 equals the sqrt-free closed form distSegSq that the driver evaluates exactly on rationals against the harness' oracle"),
         (M, "TV.C16.dp_tolerance", "T5: every input fix is within eps (true point-segment distance, squared form) of a segment between two consecutive vertices of the OUTPUT polyline"),
         (M, "TV.C16.dp_correct", "T1+T2+T3+T5 in one statement: for every track of >= 2 fixes and eps > 0 a result exists, is a sublist keeping both ends, and is within tolerance"),
         (M, "TV.C16.vw_sublist_ends", "T6: Visvalingam (areas below ARGMIN's 1e300 sentinel, any tolerance, any scalar type) returns a sublist keeping the first and last observation and its loop stops by itself within len(track) passes"),
+        (M, "TV.C16.dp_any_tiebreak", "T7: whichever of several equally far fixes is taken as split point (the runs the correspondence check accepts), the result is a sublist keeping both ends; any scalar type"),
+        (M, "TV.C16.dp_any_tiebreak_tolerance", "T7: every such run is within tolerance, and the code's own run (first farthest fix) is one of them"),
         (M, "TV.C16.single_fix", "a one-fix track is returned unchanged by both algorithms"),
     ]
     partial = []
@@ -241,8 +244,11 @@ class P(Prop):
     # ---------------------------------------------------------------- model
     def requests(self, case):
         k = case["kind"]
-        if k in ("dist", "area"):
-            return ["C16.%s %s" % (k, " ".join(fbits(v) for v in case["p"]))]
+        if k == "dist":
+            return ["C16.dist %s" % " ".join(fbits(v) for v in case["p"]),
+                    "C16.distq %s" % " ".join(ratstr(v) for v in case["p"])]
+        if k == "area":
+            return ["C16.area %s" % " ".join(fbits(v) for v in case["p"])]
         fl = lambda l: ",".join(fbits(v) for v in l) if l else "_"
         return ["C16.%s %s %s %s" % (k, fbits(case["tol"]), fl(case["xs"]), fl(case["ys"]))]
 
@@ -251,7 +257,9 @@ class P(Prop):
         r = replies[0]
         if r == "bad-request":
             raise ValueError("bad-request")
-        if k in ("dist", "area"):
+        if k == "dist":
+            return {"v": bitsf(r), "sq": replies[1]}
+        if k == "area":
             return {"v": bitsf(r)}
         if r.startswith("err:"):
             return {"err": r}
@@ -268,6 +276,14 @@ class P(Prop):
             if impl_out.get("err") == model_out.get("err"):
                 return None
             return "impl=%s model=%s" % (impl_out, model_out)
+        if case["kind"] == "dist":
+            # the Lean closed form distSegSq (proved equal to distance_to_segment^2, Props/C16 dist_sq_eq) on exact rationals
+            p = [F(v) for v in case["p"]]
+            sq = parse_rat(model_out["sq"])
+            if sq != seg_d2((p[0], p[1]), (p[2], p[3]), (p[4], p[5])):
+                return "the harness' oracle and the Lean specification distSegSq differ on %s: %s" % (case["p"], sq)
+            if not close(impl_out["v"], math.sqrt(sq), 1e-9, 1e-9):
+                return "impl=%r, exact model distance %r" % (impl_out["v"], math.sqrt(sq))
         if case["kind"] in ("dist", "area"):
             return None if close(impl_out["v"], model_out["v"], 1e-12) else "impl=%r model=%r" % (impl_out["v"], model_out["v"])
         if impl_out["input_size_after"] != model_out["input_size_after"]:
